@@ -16,6 +16,7 @@ pub mod c14;
 pub mod c17;
 pub mod c18;
 pub mod c19;
+pub mod c20;
 
 pub struct PropInfo {
     pub quick_runs: u64,
@@ -41,6 +42,7 @@ pub fn info(prop: &str) -> Option<PropInfo> {
         "C17" => Some(c17::INFO),
         "C18" => Some(c18::INFO),
         "C19" => Some(c19::INFO),
+        "C20" => Some(c20::INFO),
         _ => None,
     }
 }
@@ -60,8 +62,9 @@ pub fn run(prop: &str, cfg: &RunCfg, direct: Option<&serde_json::Value>) -> Outc
         "C17" => c17::run(cfg, direct),
         "C18" => c18::run(cfg, direct),
         "C19" => c19::run(cfg, direct),
+        "C20" => c20::run(cfg, direct),
         _ => panic!("unknown property {prop}"),
     }
 }
 
-pub const ALL: &[&str] = &["C01", "C02", "C03", "C04", "C05", "C06", "C07", "C12", "C13", "C14", "C17", "C18", "C19"];
+pub const ALL: &[&str] = &["C01", "C02", "C03", "C04", "C05", "C06", "C07", "C12", "C13", "C14", "C17", "C18", "C19", "C20"];
